@@ -118,6 +118,17 @@ def r2_encodings(cx):
     cx.ob("R2", "R2/SizedOffset/reader", _has_bin(rb, "Shr", bits) and _has_bin(rb, "BitAnd", mask), r, "SizedOffset::parse reads size = data & %#x, offset = data >> %d" % (mask, bits))
 
 
+def r2b_content_info_packing(cx):
+    """ContentInfo = cluster_index << 12 | blob_index & 0xFFF on both sides (a symmetric change of the split is
+    invisible to every round-trip test and breaks every file written before it)"""
+    import c01
+    before = len(cx.obs)
+    c01.r2_packing(cx)
+    for o in cx.obs[before:]:
+        o.rule = "R2"
+        o.key = "R2/ContentInfo/" + o.key.split("/", 1)[1]
+
+
 def _has_bin(b, op, const):
     for blk in b.blocks:
         for s in blk["s"]:
@@ -375,6 +386,7 @@ def r6_mirror(cx):
 RULES = [
     ("R1", r1_layouts, 80),
     ("R2", r2_encodings, 18),
+    ("R2", r2b_content_info_packing, 6),
     ("R3", r3_tags, 16),
     ("R4", r4_version, 2),
     ("R5", r5_pack_size, 5),
